@@ -457,8 +457,8 @@ var seenFunc = map[string]bool{}
 func checkEnv(c *Ctx, e envCase, emit bool) {
 	c.Eval()
 	rp := e.replay()
-	nfail0 := len(c.Failures)
-	reported := func() bool { return len(c.Failures) > nfail0 }
+	nfail0 := totalFails()
+	reported := func() bool { return totalFails() > nfail0 }
 	s1, out1 := build(e.stmts)
 	names := globalNames(s1)
 	orig := map[string]object.Object{}
@@ -473,7 +473,7 @@ func checkEnv(c *Ctx, e envCase, emit bool) {
 	full, nfull := saveBytes(s1, 0)
 	lim, nlim := saveBytes(s1, e.maxLen)
 	if full == nil || lim == nil {
-		c.Fail("save-error", rp, "SaveGlobals returned an error on a bytes.Buffer")
+		failf(c, "save-error", rp, "SaveGlobals returned an error on a bytes.Buffer")
 		return
 	}
 	// ---- correspondence cases
@@ -507,7 +507,7 @@ func checkEnv(c *Ctx, e envCase, emit bool) {
 				break
 			}
 		}
-		c.Fail("binding-occupies-several-lines:"+cls, rp, fmt.Sprintf("%d bindings to save, SaveGlobals reported %d, file has %d lines", expected, nfull, len(fullLines)))
+		failf(c, "binding-occupies-several-lines:"+cls, rp, fmt.Sprintf("%d bindings to save, SaveGlobals reported %d, file has %d lines", expected, nfull, len(fullLines)))
 	} else {
 		for i, n := range savedNames {
 			if ln := lineName(fullLines[i]); ln != n {
@@ -515,7 +515,7 @@ func checkEnv(c *Ctx, e envCase, emit bool) {
 				if f, isF := orig[n].(object.Function); isF && f.Name != nil && f.Name.Literal() != n {
 					sig = "binding-lost:alias-of-named-function"
 				}
-				c.Fail(sig, rp, fmt.Sprintf("line %d is %q, expected the binding of %q", i, fullLines[i], n))
+				failf(c, sig, rp, fmt.Sprintf("line %d is %q, expected the binding of %q", i, fullLines[i], n))
 				break
 			}
 		}
@@ -533,19 +533,19 @@ func checkEnv(c *Ctx, e envCase, emit bool) {
 				val = l[i+1:]
 			}
 			if len(val) <= e.maxLen {
-				c.Fail("value-length-limit:short-value-skipped", rp, fmt.Sprintf("limit %d, line %q absent", e.maxLen, l))
+				failf(c, "value-length-limit:short-value-skipped", rp, fmt.Sprintf("limit %d, line %q absent", e.maxLen, l))
 			}
 			c.Count("skipped-by-limit")
 		}
 		if j != len(limLines) || nlim != len(limLines) {
-			c.Fail("value-length-limit:truncated-or-extra-line", rp, fmt.Sprintf("limit %d: limited file is not a sub-sequence of whole lines of the full file", e.maxLen))
+			failf(c, "value-length-limit:truncated-or-extra-line", rp, fmt.Sprintf("limit %d: limited file is not a sub-sequence of whole lines of the full file", e.maxLen))
 		}
 		for _, l := range limLines {
 			if bytes.HasPrefix(l, []byte("func ")) {
 				continue // named functions are written whatever their length
 			}
 			if i := bytes.IndexByte(l, '='); i >= 0 && len(l)-i-1 > e.maxLen {
-				c.Fail("value-length-limit:long-value-written", rp, fmt.Sprintf("limit %d, line %q", e.maxLen, l))
+				failf(c, "value-length-limit:long-value-written", rp, fmt.Sprintf("limit %d, line %q", e.maxLen, l))
 			}
 		}
 	}
@@ -553,17 +553,23 @@ func checkEnv(c *Ctx, e envCase, emit bool) {
 	s1.MaxValueLen = e.maxLen
 	os.Remove(".gr")
 	if err := repl.AutoSave(s1, repl.Options{AutoSave: true, MaxValueLen: e.maxLen}); err != nil {
-		c.Fail("autosave-error", rp, err.Error())
+		failf(c, "autosave-error", rp, err.Error())
 		return
 	}
-	fileA, _ := os.ReadFile(".gr")
+	fileA, errRd := os.ReadFile(".gr")
+	if errRd != nil {
+		// nothing was set in this session (every statement failed): AutoSave does not write; auto-load what save() writes
+		c.Count("autosave-skipped-nothing-set")
+		fileA = lim
+		_ = os.WriteFile(".gr", lim, 0o644)
+	}
 	if !bytes.Equal(fileA, lim) {
-		c.Fail("autosave-differs-from-SaveGlobals", rp, fmt.Sprintf("%q vs %q", fileA, lim))
+		failf(c, "autosave-differs-from-SaveGlobals", rp, fmt.Sprintf("%q vs %q", fileA, lim))
 	}
 	evalQuiet(s1, out1, `save("st")`)
 	fileB, _ := os.ReadFile("st.gr")
 	if !bytes.Equal(fileB, lim) {
-		c.Fail("save-extension-differs-from-SaveGlobals", rp, fmt.Sprintf("%q vs %q", fileB, lim))
+		failf(c, "save-extension-differs-from-SaveGlobals", rp, fmt.Sprintf("%q vs %q", fileB, lim))
 	}
 	out1.Reset()
 	sA, outA := newState()
@@ -630,7 +636,7 @@ func checkEnv(c *Ctx, e envCase, emit bool) {
 				if reboundSpecial(orig) {
 					d = "reload-value-changed:rebound-nil-Inf-NaN"
 				}
-				c.Fail(d, rp, fmt.Sprintf("%s: %s was %s, reloaded %s", w.tag, n, Canon(o), canonOrNone(r)))
+				failf(c, d, rp, fmt.Sprintf("%s: %s was %s, reloaded %s", w.tag, n, Canon(o), canonOrNone(r)))
 			default:
 				if f, isF := o.(object.Function); isF {
 					c.Count("function-global")
@@ -640,11 +646,11 @@ func checkEnv(c *Ctx, e envCase, emit bool) {
 						if wi == 1 && w.err != "" && r == nil {
 							continue
 						}
-						c.Fail(fnSig(f, n, "lost"), rp, fmt.Sprintf("%s: function %s reloaded as %s", w.tag, n, canonOrNone(r)))
+						failf(c, fnSig(f, n, "lost"), rp, fmt.Sprintf("%s: function %s reloaded as %s", w.tag, n, canonOrNone(r)))
 						continue
 					}
 					if fnOf(rf) != fnOf(f) {
-						c.Fail(fnSig(f, n, "tree-changed"), rp, fmt.Sprintf("%s: %s saved as %q reloads as %q [%v | %v]", w.tag, n, f.Inspect(), rf.Inspect(), fnOf(f), fnOf(rf)))
+						failf(c, fnSig(f, n, "tree-changed"), rp, fmt.Sprintf("%s: %s saved as %q reloads as %q [%v | %v]", w.tag, n, f.Inspect(), rf.Inspect(), fnOf(f), fnOf(rf)))
 					} else {
 						c.NonTrivial("f:" + f.Inspect())
 					}
@@ -656,13 +662,13 @@ func checkEnv(c *Ctx, e envCase, emit bool) {
 					if wi == 1 && w.err != "" && r == nil {
 						continue
 					}
-					c.Fail("not-reloaded:"+otherClass(o), rp, fmt.Sprintf("%s: %s was %s, reloaded %s", w.tag, n, Canon(o), canonOrNone(r)))
+					failf(c, "not-reloaded:"+otherClass(o), rp, fmt.Sprintf("%s: %s was %s, reloaded %s", w.tag, n, Canon(o), canonOrNone(r)))
 				}
 			}
 		}
 		for n := range got {
 			if _, ok := orig[n]; !ok {
-				c.Fail("binding-added-by-reload", rp, fmt.Sprintf("%s: %s = %s", w.tag, n, Canon(got[n])))
+				failf(c, "binding-added-by-reload", rp, fmt.Sprintf("%s: %s = %s", w.tag, n, Canon(got[n])))
 			}
 		}
 		if wi == 0 {
@@ -689,12 +695,12 @@ func checkEnv(c *Ctx, e envCase, emit bool) {
 				}
 				break
 			}
-			c.Fail("whole-file-load-stops-at-unloadable-line:"+cause, rp, fmt.Sprintf("load() error %q: %d bindings not restored (auto-load: %d)", w.err, miss, missA))
+			failf(c, "whole-file-load-stops-at-unloadable-line:"+cause, rp, fmt.Sprintf("load() error %q: %d bindings not restored (auto-load: %d)", w.err, miss, missA))
 		}
 		// ---- save again: same bytes; and a second cycle
 		re, _ := saveBytes(w.s, e.maxLen)
 		if !bytes.Equal(re, lim) && !reported() {
-			c.Fail("resave-differs", rp, fmt.Sprintf("%s: %q then %q", w.tag, lim, re))
+			failf(c, "resave-differs", rp, fmt.Sprintf("%s: %q then %q", w.tag, lim, re))
 		}
 		cycles := 1
 		if c.Thorough() {
@@ -711,7 +717,7 @@ func checkEnv(c *Ctx, e envCase, emit bool) {
 				if reported() {
 					break // a consequence of a reload failure already reported for this environment
 				}
-				c.Fail("save-load-cycle-not-stable", rp, fmt.Sprintf("cycle %d: %q then %q", k+2, prev, nb))
+				failf(c, "save-load-cycle-not-stable", rp, fmt.Sprintf("cycle %d: %q then %q", k+2, prev, nb))
 				break
 			}
 			prev, ps = nb, s2
@@ -743,7 +749,7 @@ func checkEnv(c *Ctx, e envCase, emit bool) {
 			for _, w := range ways[:1] {
 				r2 := callObs(w.s, w.out, call)
 				if r1 != r2 {
-					c.Fail(fnSig(f, n, "behaviour-changed"), rp, fmt.Sprintf("%s: %s gives %s, after reload %s (%s)", w.tag, call, r1, r2, lastErrs))
+					failf(c, fnSig(f, n, "behaviour-changed"), rp, fmt.Sprintf("%s: %s gives %s, after reload %s (%s)", w.tag, call, r1, r2, lastErrs))
 				}
 			}
 			c.Count("function-call")
@@ -823,6 +829,27 @@ func callObs(s *eval.State, out *bytes.Buffer, call string) string {
 }
 
 var lastErrs string
+
+// failf records a failure; each signature keeps its first 25 occurrences in full, the rest are only counted
+// (the run-wide list is bounded: a frequent known finding must not crowd out a rare new one).
+var perSig = map[string]int{}
+
+func totalFails() int {
+	n := 0
+	for _, v := range perSig {
+		n += v
+	}
+	return n
+}
+
+func failf(c *Ctx, sig, cs, detail string) {
+	perSig[sig]++
+	if perSig[sig] > 25 {
+		c.Count("more:" + sig)
+		return
+	}
+	c.Fail(sig, cs, detail)
+}
 
 // ------------------------------------------------------------------ correspondence cases
 
@@ -932,8 +959,8 @@ func (x *gen) intn(n int) int { return x.c.R.Intn(n) }
 
 var specialInts = []string{"0", "1", "-1", "9223372036854775807", "(-9223372036854775807)", "42", "-7", "4611686018427387904", "1000000", "255"}
 var specialFloats = []string{"0.5", "-2.25", "0.001", "1.5e-3", "3.14159", "1e21", "1e20", "1e22", "123456.789", "0.1", "2.5e-8", "1e-7", "5e-324", "2.2250738585072014e-308",
-	"1.7976931348623157e308", "1e308", "4.9e-324", "9007199254740993.0", "0.30000000000000004", "1e23", "8.41e21", "2.5", "-0.75", "100.5", "6.02e23", "1.0000000000000002", "0.000001", "9.5e-7"}
-var integralFloats = []string{"1.0", "-3.0", "0.0", "(-0.0)", "1e3", "2e10", "9007199254740992.0", "4611686018427387904.0"}
+	"1.7976931348623157e308", "1e308", "4.9e-324", "0.30000000000000004", "1e23", "8.41e21", "2.5", "-0.75", "100.5", "6.02e23", "1.0000000000000002", "0.000001", "9.5e-7"}
+var integralFloats = []string{"9007199254740993.0", "1.0", "-3.0", "0.0", "(-0.0)", "1e3", "2e10", "9007199254740992.0", "4611686018427387904.0"}
 
 func (x *gen) float(findings bool) string {
 	switch k := x.intn(10); {
